@@ -55,6 +55,27 @@ the scenario of the case, never by the symptom alone:
       threaded-sink-closed-per-worker-thread  (num_threads >= 2: close() per
           worker, writes after the first close)
 
+Two further families of `vlib/c12_ext.py` (third audit round, audits/pipeline/round3
+hunt_3 and audits/sharding/round3 hunt_3), again attributed by the scenario:
+  fresult   the failure class "the operator's function returns normally but its RESULT
+            is unusable by the operator": a filter predicate whose result cannot be
+            truth-tested for the chosen units (a 2-element ndarray, or an object whose
+            __bool__ raises ValueError / TypeError), the filter being the only / first /
+            a middle / the last operator of the chain, num_threads 0..2, skipping on /
+            off. Oracle: exactly as when the predicate itself raises for these units.
+      filter-truth-test-outside-error-skipping
+          skipping on: the truth test runs outside the skipped call; the stream ends
+          silently at the failing record, or the error aborts the run
+  restore   a chain with a sink, single-threaded, over a SequenceDataSource: c records
+            are taken, the iterator is checkpointed and restored (it.from_state(
+            it.state)), the ORIGINAL iterator is dropped (del + gc.collect()) before or
+            while the restored one runs to the end. Oracle: every record is delivered
+            and written exactly once over original + restored, close() is called
+            exactly once, nothing is written after it.
+      abandoned-pre-restore-iterator-closes-shared-sink
+          the finally of Sink.iterate in the dropped original closes the sink the
+          restored iterator shares
+
 Failing units are selected by position in the interpreter's evaluation and
 communicated to the real run by the canonical text of the call arguments, so
 the real function and the oracle fail on exactly the same calls, whatever the
@@ -83,6 +104,13 @@ RULE = (
     'aggregate update call or failing operator units of a later stage, skipping '
     'on/off) followed by a bounded wait for the helper threads, tsink = (chain with '
     'a sink, num_threads 0..3, slow units of one operator); '
+    'fresult = (filter as the only / first / a middle / the last operator of a chain '
+    'of <= 5 operators, num_threads 0..2, skipping on/off, the predicate RESULT of the '
+    'chosen units is not truth-testable: 2-element ndarray or object whose __bool__ '
+    'raises ValueError/TypeError; every subset of <= 2 and 8 random subsets of 3 '
+    'failing positions); restore = (chain with >= 1 sink over a SequenceDataSource, '
+    'num_threads 0, checkpoint after c in 0..len deliveries, it.from_state(it.state), '
+    'the original dropped after d further deliveries of the restored iterator); '
     'quick: EVERY subset of <= 3 failing positions of the <= 8 units of each '
     'scenario, thorough: random subsets of <= 6 positions of streams of <= 30 '
     'records; non-trivial = >= 1 failing unit with a surviving unit after it; '
@@ -116,6 +144,15 @@ ASSUMPTIONS = [
     'bounded wait of 4 s, before any maybe_stop(); idle pool workers of a pool that '
     'was never shut down count as alive; a watchdog expiry of the run itself is '
     'inconclusive; sinks of release cases are not judged',
+    'fresult: a predicate result that cannot be truth-tested is a failure of the '
+    'element like a raising predicate (the property quantifies over failing elements '
+    '"in any operator"); with a 2-element ndarray result the original exception is '
+    'created by numpy, it is recognised in the cause chain by its text',
+    'restore: chains hold no re-batching operator and no batch(), num_threads=0; the '
+    'checkpoint is taken between deliveries, restored on the iterator that produced it '
+    'with the state object as is; the sink is the same object for both iterators (the '
+    'pipeline object is shared); a restore whose original never delivered a record '
+    '(cut 0) is a control',
 ]
 REQUIRED = ['noop_stage_checks', 'skip_on_checks', 'skip_off_checks', 'cause_chain_checks',
             'next_after_error_checks', 'sink_closed_checks', 'thread_baseline_checks',
@@ -135,7 +172,15 @@ REQUIRED = ['noop_stage_checks', 'skip_on_checks', 'skip_off_checks', 'cause_cha
             'release_stage_threads_3', 'release_next_after_end_checks',
             'tsink_checks', 'tsink_threads_0', 'tsink_threads_1', 'tsink_threads_2',
             'tsink_threads_3', 'tsink_written_once_checks', 'tsink_close_once_checks',
-            'tsink_slow_records_slept', 'tsink_thread_checks']
+            'tsink_slow_records_slept', 'tsink_thread_checks',
+            'fresult_checks', 'fresult_pos_only', 'fresult_pos_first',
+            'fresult_pos_middle', 'fresult_pos_last', 'fresult_form_array2',
+            'fresult_form_boolraises', 'fresult_skip_on', 'fresult_skip_off',
+            'fresult_unusable_results_returned',
+            'restore_checks', 'restore_cut_inside', 'restore_cut_0', 'restore_cut_end',
+            'restore_dropped_before_restored_runs', 'restore_dropped_while_restored_runs',
+            'restore_written_once_checks', 'restore_close_once_checks',
+            'restore_delivered_once_checks']
 CHUNK_TIMEOUT_S = {'quick': 240, 'thorough': 3000}
 TARGETS = ['apply', 'assign', 'filter', 'sink', 'source', 'source+apply', 'apply_rebatch',
            'assign_rebatch']
@@ -187,6 +232,43 @@ class Poison:
       with self.lock:
         self.raised.append(e)
       raise e
+    return self.fn(*args, **kwargs) if self.fn is not None else None
+
+
+class Untestable:
+  """A function result that cannot be truth-tested: bool() raises."""
+
+  def __init__(self, owner, key):
+    self.owner, self.key = owner, key
+
+  def __bool__(self):
+    e = self.owner.exc(f'the result of call {self.key[:60]} has no truth value')
+    with self.owner.lock:
+      self.owner.raised.append(e)
+    raise e
+
+
+class PoisonResult(Poison):
+  """Wraps a user function: for the calls whose arguments are in `bad` it returns
+  normally, but a RESULT the operator cannot use (not truth-testable)."""
+
+  ARRAY_TEXT = 'truth value of an array'
+
+  def __init__(self, fn, bad, exc, form):
+    super().__init__(fn, bad, exc)
+    self.form = form
+    self.returned = 0
+
+  def __call__(self, *args, **kwargs):
+    from vlib import pipeline_gen as g
+    key = g.canon((args, sorted(kwargs.items())))
+    if key in self.bad:
+      with self.lock:
+        self.returned += 1
+      if self.form == 'array2':
+        import numpy as np
+        return np.array([True, False])
+      return Untestable(self, key)
     return self.fn(*args, **kwargs) if self.fn is not None else None
 
 
@@ -360,7 +442,24 @@ def _digest_result(res, poisons, shared):
     obs['in_chain'] = in_chain(err, raised)
     obs['first_in_chain'] = (in_chain(err, op_raised[:1])
                              if op_raised and shared is None else None)
+    if any(getattr(p, 'form', None) == 'array2' and p.returned for p in poisons.values()):
+      # the exception object is numpy's: recognised by its text
+      obs['in_chain'] = obs['in_chain'] or text_in_chain(err, PoisonResult.ARRAY_TEXT)
+  obs['n_unusable_results'] = sum(getattr(p, 'returned', 0) for p in poisons.values())
   return obs
+
+
+def text_in_chain(err, text):
+  seen, todo = set(), [err]
+  while todo:
+    e = todo.pop()
+    if e is None or id(e) in seen:
+      continue
+    seen.add(id(e))
+    if text in str(e):
+      return True
+    todo.extend([e.__cause__, e.__context__])
+  return False
 
 
 def real_run(case, records, bad):
@@ -374,7 +473,10 @@ def real_run(case, records, bad):
     i = op['id']
     fn = g.resolve(op)
     if bad.get(i):
-      poisons[i] = Poison(fn, bad[i], EXC[fail[i]['exc']])
+      if fail[i].get('mode') == 'result':
+        poisons[i] = PoisonResult(fn, bad[i], EXC[fail[i]['exc']], fail[i]['form'])
+      else:
+        poisons[i] = Poison(fn, bad[i], EXC[fail[i]['exc']])
       return poisons[i]
     return fn
 
@@ -463,7 +565,8 @@ def _target(case):
 
 def _mech(kind, case, err_repr=None):
   from vlib import c12_ext
-  special = c12_ext.srcfirst_mechanism(kind, case, err_repr)
+  special = c12_ext.srcfirst_mechanism(kind, case, err_repr) or \
+      c12_ext.fresult_mechanism(kind, case)
   if special:
     return special
   target = _target(case)
@@ -524,14 +627,25 @@ def check_case(ctx, case):
     if rb:
       ctx.count('first_rebatch_' + base)
     ctx.count('src_skipped_by_' + case['src_mode'])
+  if case.get('family') == 'fresult':
+    ctx.count('fresult_checks')
+    ctx.count('fresult_pos_' + case['pos'])
+    ctx.count('fresult_skip_' + ('on' if case['ignore_error'] else 'off'))
+    for f in case.get('fail', {}).values():
+      ctx.count('fresult_form_' + f['form'])
   if len(ctx.samples) < 2 and ora['n_failing'] >= 2:
     ctx.sample({k: v for k, v in case.items()})
 
   obs = real_run(case, g.dec(case['records']), ora['bad'])
+  if obs.get('n_unusable_results'):
+    ctx.count('fresult_unusable_results_returned', obs['n_unusable_results'])
 
   def viol(kind, detail):
+    from vlib import c12_ext
     mech = _mech(kind, case, obs.get('err_repr'))
     ctx.count('viol:' + mech)
+    if not c12_ext.keep_witness(ctx, kind, mech):
+      return
     ctx.violation(kind, case, dict(detail, target=_target(case),
                                    chain=[C08.op_tags(op) for op in chain]),
                   mechanism=mech)
@@ -917,7 +1031,7 @@ def run_case(ctx, case):
     pipeline_selftest.run(ctx, C08.same, only=case['selftest'])
   elif case.get('family') == 'noopstage':
     check_noop_stage_case(ctx, case)
-  elif case.get('family') in ('release', 'tsink'):
+  elif case.get('family') in ('release', 'tsink', 'restore'):
     from vlib import c12_ext
     c12_ext.run_case(ctx, case)
   else:
